@@ -45,12 +45,40 @@ Lemma excl_open l o : excl l = Some (Some o) ->
 Proof.
   induction l as [|e l IH] using rev_ind; [done|].
   rewrite excl_snoc. destruct (excl l) as [[o'|]|] eqn:E; cbn; [| |done].
-  - destruct e as [| |x]; [done| |].
+  - destruct e as [| |x|x]; [done| | |].
     + by destruct (op_eqb o0 o').
+    + destruct o' as [k| |]; [|done..]. intros [= <-]. destruct (IH eq_refl) as (l0 & l' & -> & H0 & Hp).
+      exists l0, (l' ++ [EBegin x]). split; [by rewrite <- app_assoc|]. split; [done|].
+      rewrite forallb_app, Hp. done.
     + destruct o' as [k| |]; [|done..]. intros [= <-]. destruct (IH eq_refl) as (l0 & l' & -> & H0 & Hp).
       exists l0, (l' ++ [EProcess x]). split; [by rewrite <- app_assoc|]. split; [done|].
       rewrite forallb_app, Hp. done.
-  - destruct e as [o1| |]; [|done..]. intros [= <-]. exists l, []. done.
+  - destruct e as [o1| | |]; [|done..]. intros [= <-]. exists l, []. done.
+Qed.
+Lemma excl_at_begin l1 x l2 r : excl (l1 ++ EBegin x :: l2) = Some r -> exists k, excl l1 = Some (Some (OPoll k)).
+Proof.
+  rewrite excl_app. cbn. destruct (excl l1) as [[[k| |]|]|]; cbn; rewrite ?foldl_excl_none; try done. by exists k.
+Qed.
+
+(* what the checker [susp_ok] says: a Begin event is for a slow item, happens when nothing is suspended, and is either
+   the last event of the log or immediately followed by the Process event of the same item *)
+Lemma foldl_susp_none l : foldl susp_step None l = None.
+Proof. induction l; cbn; done. Qed.
+Lemma item_eqb_eq x y : item_eqb x y = true -> x = y.
+Proof.
+  destruct x as [n b], y as [m c]. unfold item_eqb; cbn. intros [H1 H2]%andb_true_iff.
+  apply Nat.eqb_eq in H1. apply Bool.eqb_prop in H2. by subst.
+Qed.
+Lemma susp_at_begin l1 x l2 r : susp_ok (l1 ++ EBegin x :: l2) = Some r ->
+  is_slow x = true /\ susp_ok l1 = Some None /\ (l2 = [] \/ exists l2', l2 = EProcess x :: l2').
+Proof.
+  unfold susp_ok. rewrite foldl_app. cbn. fold (susp_ok l1).
+  destruct (susp_ok l1) as [[y|]|]; cbn; rewrite ?foldl_susp_none; try done.
+  destruct (is_slow x) eqn:Es; rewrite ?foldl_susp_none; [|done].
+  destruct l2 as [|e l2]; [by auto|]. cbn.
+  destruct e as [| | |y]; rewrite ?foldl_susp_none; try done.
+  destruct (item_eqb x y) eqn:E; rewrite ?foldl_susp_none; [|done].
+  apply item_eqb_eq in E as <-. intros _. split; [done|]. split; [done|]. right. by eexists.
 Qed.
 
 Corollary process_inside_poll_job items s l1 x l2 : reachable items s -> s.(log) = l1 ++ EProcess x :: l2 ->
@@ -58,6 +86,23 @@ Corollary process_inside_poll_job items s l1 x l2 : reachable items s -> s.(log)
 Proof.
   intros H Hl. pose proof (exclusive _ _ H) as He. rewrite Hl in He.
   apply excl_at_process in He as [k Hk]. exists k. by apply excl_open.
+Qed.
+(* the open operation spans the suspension of an item: the Begin of a (slow) item lies inside a poll job, and the next
+   event of the whole log, if any, is the Process of the same item - no operation starts or finishes, nothing else is
+   processed in between; while the item is suspended the poll job is the running operation *)
+Theorem suspension_atomic items s : reachable items s -> susp_ok s.(log) = Some (susp_item s).
+Proof. intros H. apply (i_susp _ _ (reach_inv _ _ H)). Qed.
+Corollary begin_then_process items s l1 x l2 : reachable items s -> s.(log) = l1 ++ EBegin x :: l2 ->
+  is_slow x = true /\
+  (exists k l0 l', l1 = l0 ++ EStart (OPoll k) :: l' /\ excl l0 = Some None /\ forallb is_process l' = true) /\
+  ((l2 = [] /\ exists k, s.(running) = Some (OPoll k, JSusp x)) \/ exists l2', l2 = EProcess x :: l2').
+Proof.
+  intros H Hl. pose proof (suspension_atomic _ _ H) as Hs. pose proof (exclusive _ _ H) as He. rewrite Hl in Hs, He.
+  destruct (susp_at_begin _ _ _ _ Hs) as (H1 & H2 & H3). split; [done|]. split.
+  - apply excl_at_begin in He as [k Hk]. exists k. by apply excl_open.
+  - destruct H3 as [->|H3]; [left|by right]. split; [done|].
+    unfold susp_ok in Hs. rewrite foldl_app in Hs. cbn in Hs. fold (susp_ok l1) in Hs. rewrite H2 in Hs. cbn in Hs. rewrite H1 in Hs.
+    injection Hs as Hs. unfold susp_item in Hs. destruct s.(running) as [[[k| |] []]|]; try done. injection Hs as ->. by exists k.
 Qed.
 Corollary start_when_nothing_open items s l1 o l2 : reachable items s -> s.(log) = l1 ++ EStart o :: l2 -> excl l1 = Some None.
 Proof. intros H Hl. pose proof (exclusive _ _ H) as He. rewrite Hl in He. by eapply excl_at_start. Qed.
@@ -100,16 +145,22 @@ Proof.
   - specialize (Hq AChute eq_refl). cbn in Hq. by destruct s.(chute).
   - specialize (Hq ARun eq_refl). cbn in Hq. destruct s.(running) as [[[k| |] pc]|]; try done.
     destruct pc; try done.
-    + by destruct s.(pollfn).
-    + destruct s.(ready); [by destruct s.(ended)|done].
+    all: repeat (match type of Hq with context [match ?x with _ => _ end] => destruct x end); done.
   - specialize (Hq ARun eq_refl). cbn in Hq. destruct s.(running) as [[[k| |] pc]|] eqn:E.
     + destruct pc; try done.
-      * by destruct s.(pollfn).
-      * destruct s.(ready); [by destruct s.(ended)|done].
+      all: repeat (match type of Hq with context [match ?x with _ => _ end] => destruct x end); done.
     + done.
     + done.
     + by destruct s.(opq).
 Qed.
+
+(* the model's assumption about the self-wake of a suspended item, made explicit: a state with a suspended item is never
+   quiescent - the runner can always re-poll the job (delivery of that wake is C06's business, not the pipe's) *)
+Lemma suspended_not_quiescent s k x : s.(running) = Some (OPoll k, JSusp x) -> ~ quiescent s.
+Proof. intros Hr Hq. destruct (quiescent_facts _ Hq) as (_ & _ & Hn & _). congruence. Qed.
+Lemma suspended_resumes s k x : s.(running) = Some (OPoll k, JSusp x) ->
+  step s ARun = Some (s <| log := s.(log) ++ [EProcess x] |> <| running := Some (OPoll k, JPoll) |>).
+Proof. intros Hr. cbn. by rewrite Hr. Qed.
 
 Lemma quiescent_asleep items s : reachable items s -> quiescent s -> s.(pollfn) = true -> waker_armed s = true.
 Proof.
@@ -251,6 +302,7 @@ Proof.
     + destruct pc; try done.
       * by destruct s.(pollfn).
       * destruct s.(ready); [by destruct s.(ended)|done].
+      * by destruct (is_slow x).
     + done.
     + done.
     + by destruct s.(opq).
